@@ -5,9 +5,9 @@ CONSTANTS
   BHigh = 0
   MaxLen = 0
   NPorts = {0, 1, 2}
-  Classes = {"discover", "object", "number", "string", "list", "null", "bool", "badutf8", "badjson", "empty", "oversized", "deep", "oversized_deep"}
+  Classes = {"discover", "object", "number", "string", "list", "null", "bool", "badutf8", "badjson", "empty", "oversized", "deep", "oversized_deep", "discover_extra"}
   Loose = {}
-  Contained = {"discover", "object", "number", "string", "list", "null", "bool", "badutf8", "badjson", "empty", "oversized", "deep", "oversized_deep"}
+  Contained = {"discover", "object", "number", "string", "list", "null", "bool", "badutf8", "badjson", "empty", "oversized", "deep", "oversized_deep", "discover_extra"}
   DisableRule = "identity"
   AnnounceRule = "enabled"
   Depth = 4
